@@ -65,6 +65,13 @@ func cmdFn(args []string) {
 	var fns []*ssa.Function
 	for key, fn := range p.funcs {
 		for _, pat := range fs.Args() {
+			if strings.HasPrefix(pat, "=") {
+				if strings.HasSuffix(key, pat[1:]) && strings.HasSuffix(key, "/"+pat[1:]) {
+					fns = append(fns, fn)
+					break
+				}
+				continue
+			}
 			if strings.Contains(key, pat) {
 				fns = append(fns, fn)
 				break
@@ -126,6 +133,9 @@ func (p *Program) runJobs(fns []*ssa.Function, cfg SolverCfg) []*Job {
 		t0 := time.Now()
 		p.generate(j)
 		j.GenSecs = time.Since(t0).Seconds()
+		if os.Getenv("GOVC_PROGRESS") != "" {
+			fmt.Fprintf(os.Stderr, "generated %s: %d obligations, %d facts in %.2fs\n", j.Name, len(j.Obls), len(j.Facts), j.GenSecs)
+		}
 		jobs = append(jobs, j)
 	}
 	// scripts must be built sequentially as well (printing touches shared tables); solving is parallel
@@ -133,25 +143,35 @@ func (p *Program) runJobs(fns []*ssa.Function, cfg SolverCfg) []*Job {
 		j *Job
 	}
 	var wg sync.WaitGroup
-	sem := make(chan struct{}, 12)
+	sem := make(chan struct{}, 14)
 	var mu sync.Mutex
 	_ = mu
-	scripts := make([]string, len(jobs))
+	type chunk struct {
+		j      *Job
+		todo   []*Obligation
+		script string
+	}
+	var chunks []chunk
 	todos := make([][]*Obligation, len(jobs))
 	for i, j := range jobs {
-		scripts[i], todos[i] = buildIncremental(j, cfg.TimeoutMs)
-	}
-	for i, j := range jobs {
-		if len(todos[i]) == 0 {
-			continue
+		todos[i] = pendingObls(j)
+		for k := 0; k < len(todos[i]); k += chunkSize {
+			end := k + chunkSize
+			if end > len(todos[i]) {
+				end = len(todos[i])
+			}
+			part := todos[i][k:end]
+			chunks = append(chunks, chunk{j, part, buildIncremental(j, part, incrementalTimeoutMs)})
 		}
+	}
+	for _, c := range chunks {
 		wg.Add(1)
-		go func(i int, j *Job) {
+		go func(c chunk) {
 			defer wg.Done()
 			sem <- struct{}{}
 			defer func() { <-sem }()
-			solvePrepared(j, scripts[i], todos[i], cfg)
-		}(i, j)
+			solvePrepared(c.j, c.script, c.todo, cfg)
+		}(c)
 	}
 	wg.Wait()
 	// portfolio pass (script building is sequential, solver runs parallel)
